@@ -53,6 +53,10 @@ func main() {
 		defer e.Close()
 		e.Props = *props
 		e.Variant = *variant
+		if *out != "" {
+			e.CurFile = *out + ".cur"
+			defer os.Remove(e.CurFile)
+		}
 		eng = e
 		sweep = func() { e.Sweep(*tier, *seed, res); res.DriverLines = d.Sent }
 	default:
